@@ -174,6 +174,8 @@ func runC07(c *Ctx) {
 	checkDustTestCoversSerializedOutput(c, "C07-R3")
 	checkWitnessSignaturesUseCompressedKeys(c, "C07-R2")
 	checkSumOutputValuesAddsEveryOutput(c, "C07-R1")
+	checkMinInputSizeConstantsByKind(c, "C07-R3")
+	checkFeeProductOverflowGuard(c, "C07-R2")
 	checkEstimatorArgumentKinds(c, "C07-R2")
 	checkNoStaleTailAfterInPlaceFilter(c, "C07-R4") // an input handed out twice is counted twice
 }
